@@ -375,3 +375,11 @@ Definition dir_store_read (m : made) (deep_immutable view_writeable : bool) : op
 (* how strong the allegation carried by a cap string is: 2 = imm., 1 = ro., 0 = none *)
 Definition strength (r : bytes) : nat :=
   if starts_with imm_prefix r then 2%nat else if starts_with ro_prefix r then 1%nat else 0%nat.
+
+(* DirectoryNode._create_readonly_node (links with metadata {"no-write": true}, mutable directory):
+   known read-only nodes are kept; anything else is re-created from its read cap alone *)
+Definition create_readonly_node (m : made) : made :=
+  match m with
+  | MNode c => match is_readonly c with Some true => m | _ => create_fresh None (made_readonly_uri m) false end
+  | _ => create_fresh None (made_readonly_uri m) false
+  end.
